@@ -296,7 +296,30 @@ def _list(lib, run, recv, args, kw):
         return v.payload
     if isinstance(v, Lazy) and v.kind == 'set':
         return v.payload
+    if isinstance(v, Lazy) and v.kind == 'setof':
+        sv = lib.as_seq(run, v.payload)
+        if sv is not None and sv.kind == 'I':
+            # list(set(indices)): the same members, each once, in an order that is a function of the set (A6)
+            from .specfns import idedup
+            return SeqV('I', idedup(sv.term), True)
     raise Unsupported('list(%r)' % (v,))
+
+
+@reg('builtins.getattr')
+def _getattr(lib, run, recv, args, kw):
+    obj, name = args[0], args[1]
+    if not isinstance(name, StrV):
+        raise Unsupported('getattr with a computed name')
+    if isinstance(obj, Ref) and isinstance(run.deref(obj), Obj):
+        o = run.deref(obj)
+        from . import spec as specmod
+        if name.s in o.fields or name.s in specmod.class_fields(run.repo, o.cls) or \
+                run.repo.lookup_method(o.cls, name.s) is not None:
+            return run.getattr(obj, name.s)
+        if len(args) > 2:
+            return args[2]          # the attribute does not exist for this class: the default
+        raise PyRaise('AttributeError', "'%s' object has no attribute '%s'" % (o.cls, name.s))
+    raise Unsupported('getattr on %r' % (obj,))
 
 
 @reg('builtins.set')
@@ -385,6 +408,11 @@ def _pop(lib, run, recv, args, kw):
     val = wrap(m.vkinds[''], m.cols[''][k.term]) if m.is_scalar else NONE
     run.set_heap(recv.loc, m.with_keys(T.aremove(m.keys, k.term)), '*')
     return val
+
+
+@reg('idict.keys')
+def _ikeys(lib, run, recv, args, kw):
+    return Lazy('range', payload=(z3.IntVal(0), run.deref(recv).n))      # the keys of range(n), in order
 
 
 @reg('dict.keys')
@@ -592,7 +620,7 @@ for _n in ('min', 'max', 'mean', 'std'):
 
 binmask = F('binmask', RSeq, BSeq)       # np.isin(r, (0, 1)) element-wise
 axiom('binmask.len', forall([_r], T.blen(binmask(_r)) == T.rlen(_r), [binmask(_r)]), ['binmask'], 'numpy')
-axiom('binmask.at', forall([_r, _i], T.bat(binmask(_r), _i) == z3.Or(T.rat(_r, _i) == 0, T.rat(_r, _i) == 1),
+axiom('binmask.at', forall([_r, _i], z3.Implies(z3.And(0 <= _i, _i < T.rlen(_r)), T.bat(binmask(_r), _i) == z3.Or(T.rat(_r, _i) == 0, T.rat(_r, _i) == 1)),
                            [T.bat(binmask(_r), _i)]), ['binmask'], 'numpy')
 
 
@@ -728,7 +756,7 @@ _M = z3.Const('M', Mat)
 _j = z3.Int('j')
 mrow = F('mrow', Mat, Int, RSeq)
 axiom('mrow.len', forall([_M, _i], T.rlen(mrow(_M, _i)) == mcols(_M), [mrow(_M, _i)]), ['mrow'], 'numpy')
-axiom('mrow.at', forall([_M, _i, _j], T.rat(mrow(_M, _i), _j) == mat_at(_M, _i, _j),
+axiom('mrow.at', forall([_M, _i, _j], z3.Implies(z3.And(0 <= _i, _i < mrows(_M), 0 <= _j, _j < mcols(_M)), T.rat(mrow(_M, _i), _j) == mat_at(_M, _i, _j)),
                         [T.rat(mrow(_M, _i), _j), mat_at(_M, _i, _j)]), ['mrow', 'mat_at'], 'numpy')
 
 
@@ -883,8 +911,8 @@ _A, _B = z3.Consts('A B', Mat)
 axiom('cdist.shape', forall([_mt, _A, _B], z3.And(mrows(cdistm(_mt, _A, _B)) == mrows(_A),
                                                   mcols(cdistm(_mt, _A, _B)) == mrows(_B)), [cdistm(_mt, _A, _B)]),
       ['cdist'], 'numpy')
-axiom('cdist.at', forall([_mt, _A, _B, _i, _j], mat_at(cdistm(_mt, _A, _B), _i, _j) ==
-                         fdist(_mt, mrow(_A, _i), mrow(_B, _j)), [mat_at(cdistm(_mt, _A, _B), _i, _j)]),
+axiom('cdist.at', forall([_mt, _A, _B, _i, _j], z3.Implies(z3.And(0 <= _i, _i < mrows(_A), 0 <= _j, _j < mrows(_B)), mat_at(cdistm(_mt, _A, _B), _i, _j) ==
+                         fdist(_mt, mrow(_A, _i), mrow(_B, _j))), [mat_at(cdistm(_mt, _A, _B), _i, _j)]),
       ['cdist'], 'numpy')
 
 
@@ -978,7 +1006,7 @@ def _gen_mvn(lib, run, recv, args, kw):
 
 mcol = F('mcol', Mat, Int, RSeq)
 axiom('mcol.len', forall([_M, _j], T.rlen(mcol(_M, _j)) == mrows(_M), [mcol(_M, _j)]), ['mcol'], 'numpy')
-axiom('mcol.at', forall([_M, _i, _j], T.rat(mcol(_M, _j), _i) == mat_at(_M, _i, _j), [T.rat(mcol(_M, _j), _i)]),
+axiom('mcol.at', forall([_M, _i, _j], z3.Implies(z3.And(0 <= _i, _i < mrows(_M), 0 <= _j, _j < mcols(_M)), T.rat(mcol(_M, _j), _i) == mat_at(_M, _i, _j)), [T.rat(mcol(_M, _j), _i)]),
       ['mcol'], 'numpy')
 
 
